@@ -23,7 +23,8 @@ CONSTANTS NMsg,     \* number of real messages; the StopIteration marker gets nu
           Drive,    \* Drive[s]: subscriber s can drive (lazy mode)
           Mode,     \* "iter" | "perm"
           Perm,     \* Mode = "perm": sequence of message numbers in sending order
-          Fut       \* set of message numbers that are futures
+          Fut,      \* set of message numbers that are futures
+          RepairedFetch   \* TRUE: _can_fetch after the "fix:" commit (see CanFetchOf)
 
 Subs == 1..NSub
 NoneV == 99          \* None in _subscriber_waiting_for
@@ -44,9 +45,12 @@ vars == <<box, haveRead, waitFor, nSent, closed, killed, spc, si, rpc, rnext, ry
 
 Min(S) == CHOOSE x \in S : \A y \in S : x <= y
 
-CanFetchOf(bx, wf, k) ==      \* Mailbox._can_fetch
+\* Mailbox._can_fetch.  "Someone is still waiting for a message we already have": as found the code
+\* compared with the lowest message number only (wf[s] <= Min(bx)), which let the source run ahead when a
+\* slower subscriber still held older messages; repaired: wf[s] \in bx.
+CanFetchOf(bx, wf, k) ==
   IF k THEN TRUE
-  ELSE IF bx # {} /\ \E s \in Subs : wf[s] # NoneV /\ wf[s] <= Min(bx) THEN FALSE
+  ELSE IF bx # {} /\ \E s \in Subs : wf[s] # NoneV /\ (IF RepairedFetch THEN wf[s] \in bx ELSE wf[s] <= Min(bx)) THEN FALSE
   ELSE \E s \in Subs : Drive[s] /\ wf[s] # NoneV
 CanFetch == CanFetchOf(box, waitFor, killed)
 
